@@ -8,7 +8,7 @@
 From Coq Require Import String.
 From Coq Require Import List Ascii ZArith Bool.
 From CGV Require Import Base.PyBase Base.PyVal Base.NxGraph Dialect.DialectImpl Reader.ReaderImpl Reader.Grammar
-     Reader.ReaderCheck Reader.Lin Reader.ReaderAst Reader.ReaderX Reader.ReaderXAst Reader.ReaderG2 Reader.ReaderG2Ast Gen.ReaderEnumGen.
+     Reader.ReaderCheck Reader.Lin Reader.UnitsDefs Reader.ReaderAst Reader.ReaderX Reader.ReaderXAst Reader.ReaderG2 Reader.ReaderG2Ast Gen.ReaderEnumGen.
 Import ListNotations.
 
 Definition fo_none : float_oracle := fun _ => None.
@@ -59,4 +59,15 @@ Lemma C05_units_cover_small_list :
 Proof. vm_compute. reflexivity. Qed.
 Lemma C05_units_cover_small_nonvacuous :
   (2000 <=? length (filter (fun a => wf fo_none a && units_ok fo_none a && has_branch_mult a) small_c05))%nat = true.
+Proof. vm_compute. reflexivity. Qed.
+
+(** the classes are exact on the list: every enumerated AST that [class_C05] puts into a class is NOT read as
+    its longhand with the identical numbering (so no class hides a correct input there); 24 ASTs in
+    stale_recipe, 843 in nested_in_unit *)
+Lemma C05_classes_exact_small_list :
+  forallb (fun a => negb (wf fo_none a) || Nat.eqb (class_C05 true a) 0 || negb (Nat.eqb (model_C05 fo_none true a None) 0)) small_c05 = true.
+Proof. vm_compute. reflexivity. Qed.
+Lemma C05_classes_exact_small_counts :
+  (length (filter (fun a => wf fo_none a && Nat.eqb (class_C05 true a) 10) small_c05),
+   length (filter (fun a => wf fo_none a && Nat.eqb (class_C05 true a) 5) small_c05)) = (24%nat, 843%nat).
 Proof. vm_compute. reflexivity. Qed.
